@@ -441,6 +441,9 @@ fn check_batch(list: &[Bytes]) -> Result<(), (String, String)> {
         .map_err(|(m, l)| (panic_fingerprint("batch-dec", &m, &l), format!("decode_message_batch panicked: {m} at {l}")))?;
     let dec: Vec<Bytes> = crate::c06::batch_result(dec).map_err(|e| ("batch:error".to_string(), format!("unbatching a valid batch failed: {e}")))?;
     if dec.len() != list.len() || dec.iter().zip(list).any(|(a, b)| a != b) {
+        if list.len() > 64 {
+            return Err(("batch:roundtrip".into(), format!("a batch of {} messages unbatched to {} messages (or different ones)", list.len(), dec.len())));
+        }
         return Err(("batch:roundtrip".into(), format!("unbatched {:?}, expected {:?}", dec.iter().map(|b| b.len()).collect::<Vec<_>>(), list.iter().map(|b| b.len()).collect::<Vec<_>>())));
     }
     Ok(())
@@ -643,6 +646,10 @@ pub fn run(tier: &str) {
     }
     lists.push(vec![65536, 0, 70000]);
     lists.push(vec![LIMIT as usize]);
+    // long lists of tiny messages (counts around powers of two and round numbers)
+    for n in [255usize, 256, 257, 1000, 1023, 1024, 1025, 4095, 4096, 4097, 10_000, 65_535, 65_536, 65_537] {
+        lists.push((0..n).map(|j| [0usize, 1, 2, 3][j % 4]).collect());
+    }
     for (i, l) in lists.iter().enumerate() {
         // distinct contents per position so that reordering is visible
         let list: Vec<Bytes> = l
@@ -660,7 +667,11 @@ pub fn run(tier: &str) {
         if i % 50 == 0 && acc.samples.len() < 32 {
             acc.samples.push(json!({"family": "batch", "message_lengths": l}));
         }
-        acc.case("batch", format!("{l:?}").as_bytes(), !l.is_empty(), || json!({"family": "batch", "message_lengths": l}), r);
+        if l.len() > 64 {
+            acc.case("batch", format!("long:{}", l.len()).as_bytes(), true, || json!({"family": "batch", "messages": l.len(), "message_lengths": "0,1,2,3 repeating"}), r);
+        } else {
+            acc.case("batch", format!("{l:?}").as_bytes(), !l.is_empty(), || json!({"family": "batch", "message_lengths": l}), r);
+        }
     }
 
     let fam: Vec<Value> = acc.per_family.iter().map(|(f, n)| json!({"family": f, "cases": n})).collect();
